@@ -15,7 +15,8 @@ PROP = {
   'the result handler behaves like ReplyCommitHandler (Ok => set_result(Ok), Err => error reply); the P-mode harness '
   'uses a handler written that way for ReqTask<CmdCtx>',
   'retrying an unanswered request on a fresh connection may execute it more than once (at-least-once); not claimed otherwise',
-  'the socket delivers to the client, in order, what handle_session hands to its writer',
+  'the socket delivers to the client, in order, the bytes that poll_flush managed to write; the model counts '
+  'packets, not bytes, and merges the one-item slot of SplitSink into the Framed write buffer',
  ],
  'gaps': [
   'liveness of wake-ups (tokio/futures poll wake-up loss) and the BatchState/flush logic are not modelled: batching '
@@ -50,7 +51,11 @@ CHECK = {
          'Session: for every event sequence the packets written to the client followed by those queued are exactly '
          'the owed replies of requests 0..k-1 in request order, one each, the rest wait in order; a live session with '
          'all requests completed writes exactly one reply per request; CmdReplySender delivers the first value sent '
-         'or Dropped. Never silence (C08_retry_bounded, after fix 0e64416 of finding F08b): the retry level is at most '
+         'or Dropped. No reply byte is left behind (C08_session_flush): for every poll-structured run (any number of '
+         'requests per poll, any socket capacity per poll, any backpressure boundary) a reply still in the write '
+         'buffer or still queued implies that the latest poll ended in a Pending flush, i.e. the session is registered '
+         'for socket writability and flushes again; a session not waiting for the socket has put every popped reply '
+         'on the socket, and a poll with enough socket room completes the flush. Never silence (C08_retry_bounded, after fix 0e64416 of finding F08b): the retry level is at most '
          'MAX_BACKEND_RETRY, never drops while a task is held and grows by one per connection failure, so a held '
          'request sees at most 1 + MAX_BACKEND_RETRY exchanges before the failure at the top level (or any time-out) '
          'answers every held task with an error; a failure with no held task carries no count over '
@@ -59,7 +64,10 @@ CHECK = {
          'RespCodec with arbitrary write capacity, reply fragmentation, stalls, break before/after any request or '
          'reply byte, refused connects, batching Disabled/Fixed/Dynamic, paused clock; packet-level Multi fan-out '
          'and wrong shapes) and the replies read by a TCP client of the real handle_session (pipelines of 1-200 '
-         'requests, split writes, out-of-order completions, drops, double sends, half-close, idle time-out).',
+         'requests, split writes, out-of-order completions, drops, double sends, half-close, idle time-out; write '
+         'backpressure: SO_SNDBUF/SO_RCVBUF of 2-8 KiB or kernel defaults, replies of 64 KiB - 4 MiB mixed with small '
+         'ones, a client that starts reading late in small chunks with pauses and sends nothing more - every reply '
+         'must arrive completely, a reply prefix followed by 3 s without a byte is silence).',
  'note': 'Trusted: Lean kernel; model transliterations (checked differentially every run); harness event observation. '
          'At-least-once execution on retry is allowed by the property. backend_conn_num > 1 (round robin over '
          'several BackendNodes) is outside the model. Finding F08b (unbounded retry) fixed in /repo by 0e64416 + 24d4705; '
